@@ -198,16 +198,38 @@ def theorems_of(props_path):
     return re.findall(r"^\s*Theorem\s+([A-Za-z0-9_']+)", src, flags=re.M)
 
 
-def forbidden_scan():
+def dep_closure(roots):
+    """the .v files (relative to COQ) the given files depend on, transitively"""
+    seen, todo = set(), list(roots)
+    while todo:
+        f = todo.pop()
+        if f in seen or not os.path.exists(os.path.join(COQ, f)):
+            continue
+        seen.add(f)
+        txt = re.sub(r"\(\*.*?\*\)", "", open(os.path.join(COQ, f)).read(), flags=re.S)
+        for m in re.finditer(r"Require\s+(?:Import\s+|Export\s+)?(.*?)\.(?:\s|$)", txt, flags=re.S):
+            for tok in m.group(1).split():
+                tok = tok.strip()
+                if tok.startswith("MafVerif."):
+                    tok = tok[len("MafVerif."):]
+                cand = tok.replace(".", "/") + ".v"
+                if os.path.exists(os.path.join(COQ, cand)):
+                    todo.append(cand)
+    return sorted(seen)
+
+
+def forbidden_scan(mod=None):
+    """forbidden vernacular in the files this property's theorems and model depend on"""
     bad = []
-    for root, _, files in os.walk(COQ):
-        for f in files:
-            if f.endswith(".v"):
-                p = os.path.join(root, f)
-                txt = open(p).read()
-                txt = re.sub(r"\(\*.*?\*\)", "", txt, flags=re.S)
-                for m in FORBIDDEN.finditer(txt):
-                    bad.append("%s: %s" % (os.path.relpath(p, COQ), m.group(0)))
+    if mod is None:
+        files = [os.path.relpath(os.path.join(r, f), COQ) for r, _, fs in os.walk(COQ) for f in fs if f.endswith(".v")]
+    else:
+        files = dep_closure([mod.PROPS, "extract/Extract%s.v" % mod.CLUSTER])
+    for rel in files:
+        txt = open(os.path.join(COQ, rel)).read()
+        txt = re.sub(r"\(\*.*?\*\)", "", txt, flags=re.S)
+        for m in FORBIDDEN.finditer(txt):
+            bad.append("%s: %s" % (rel, m.group(0)))
     return bad
 
 
@@ -390,7 +412,7 @@ def main(argv):
             # the model may still run from the previous extraction
             r = "%s/build/%s/run" % (VERIF, mod.CLUSTER.lower())
             runner = r if os.path.exists(r) else None
-        bad_words = forbidden_scan()
+        bad_words = forbidden_scan(mod)
     extra = []
     if hasattr(mod, "EXTRA_OBLIGATIONS"):
         try:
